@@ -616,44 +616,118 @@ def check_kernels(prog, rep):
     if f is None:
         raise AnalysisIncomplete('_ellipse_kernel not found')
     hw, hh = f.params[:2]
-    # the two coordinate grids written in place inside the inequality (`(np.linspace(..) * h) ** 2 + ...`) are given names
-    # first, so that the rule reads `x = linspace(..)`, `y = linspace(..)[:, None]` either way
-    if not any(isinstance(s_, ast.Assign) and any(isinstance(c_, ast.Call) and short(c_) == 'linspace' for c_ in ast.walk(s_.value))
-               for s_ in f.node.body):
-        import copy as _copy
-        node_ = _copy.deepcopy(f.node)
-        found_ = []
+    # Reading forms.  (a) `np.add.outer(A, B)` of two vectors is `A[:, None] + B`, and `[:, None]` on an element-wise expression
+    # of one grid and scalars is that expression of the column grid: the column marker is pushed down to the `linspace` it
+    # applies to (only when every array leaf under it is a linspace call - 1-D by construction - else nothing is rewritten).
+    # (b) grids written in place inside other expressions are given names first (their arguments read only parameters), so
+    # that the rule reads `x = linspace(..)`, `y = linspace(..)[:, None]` either way.
+    import copy as _copy
+    COLS = (':,None', '(:,None)', '(slice(None,None,None),None)', ':,np.newaxis', '(:,np.newaxis)')
+    params_ = set(f.params)
+    stored_ = {x_.id for x_ in ast.walk(f.node) if isinstance(x_, ast.Name) and isinstance(x_.ctx, ast.Store)}
 
-        class _Name(ast.NodeTransformer):
-            def visit_Subscript(self, n):
-                if isinstance(n.value, ast.Call) and short(n.value) == 'linspace':
-                    found_.append(n)
-                    return ast.copy_location(ast.Name(id='_grid%d' % (len(found_) - 1), ctx=ast.Load()), n)
-                self.generic_visit(n)
-                return n
+    once_ = {}
+    for s_ in f.node.body:
+        if isinstance(s_, ast.Assign) and len(s_.targets) == 1 and isinstance(s_.targets[0], ast.Name):
+            once_.setdefault(s_.targets[0].id, []).append(s_.value)
+    nstores_ = {}
+    for x_ in ast.walk(f.node):
+        if isinstance(x_, ast.Name) and isinstance(x_.ctx, ast.Store):
+            nstores_[x_.id] = nstores_.get(x_.id, 0) + 1
 
-            def visit_Call(self, n):
-                if short(n) == 'linspace':
-                    found_.append(n)
-                    return ast.copy_location(ast.Name(id='_grid%d' % (len(found_) - 1), ctx=ast.Load()), n)
-                if short(n) == 'reshape' and isinstance(n.func, ast.Attribute) and isinstance(n.func.value, ast.Call) and short(n.func.value) == 'linspace':
-                    found_.append(n)
-                    return ast.copy_location(ast.Name(id='_grid%d' % (len(found_) - 1), ctx=ast.Load()), n)
-                self.generic_visit(n)
-                return n
-        rets_ = [k_ for k_, s_ in enumerate(node_.body) if isinstance(s_, ast.Return)]
-        if len(rets_) == 1:
-            k_ = rets_[0]
-            node_.body[k_] = _Name().visit(node_.body[k_])
-            if len(found_) == 2:
-                pre_ = [ast.copy_location(ast.Assign(targets=[ast.Name(id='_grid%d' % i_, ctx=ast.Store())], value=e_), node_.body[k_])
-                        for i_, e_ in enumerate(found_)]
-                node_.body[k_:k_] = pre_
-                ast.fix_missing_locations(node_)
-                from ..program import Func as _Func
-                g_ = _Func(f.module, node_, f.parent)
-                g_.jit, g_.children = f.jit, f.children
-                f = g_
+    def _scalar(e_, depth=0):
+        # numbers made of the parameters (and of locals bound once, at the top level, to such numbers)
+        if any(isinstance(x_, (ast.Call, ast.Subscript, ast.Attribute)) for x_ in ast.walk(e_)) or depth > 4:
+            return False
+        for x_ in ast.walk(e_):
+            if isinstance(x_, ast.Name):
+                if x_.id in params_ and x_.id not in stored_:
+                    continue
+                if nstores_.get(x_.id) == 1 and len(once_.get(x_.id, [])) == 1 and _scalar(once_[x_.id][0], depth + 1):
+                    continue
+                return False
+        return True
+
+    def _push(e_):
+        """e_ as a column: None when it is not an element-wise expression of linspace vectors and scalars"""
+        if isinstance(e_, ast.Call) and short(e_) == 'linspace':
+            return ast.Subscript(value=e_, slice=ast.Tuple(elts=[ast.Slice(), ast.Constant(value=None)], ctx=ast.Load()), ctx=ast.Load())
+        if _scalar(e_):
+            return e_
+        if isinstance(e_, ast.BinOp):
+            l_, r_ = _push(e_.left), _push(e_.right)
+            return None if l_ is None or r_ is None else ast.BinOp(left=l_, op=e_.op, right=r_)
+        if isinstance(e_, ast.UnaryOp):
+            o_ = _push(e_.operand)
+            return None if o_ is None else ast.UnaryOp(op=e_.op, operand=o_)
+        return None
+
+    def _row(e_):
+        if isinstance(e_, ast.Call) and short(e_) == 'linspace':
+            return True
+        if _scalar(e_):
+            return True
+        if isinstance(e_, ast.BinOp):
+            return _row(e_.left) and _row(e_.right)
+        if isinstance(e_, ast.UnaryOp):
+            return _row(e_.operand)
+        return False
+
+    class _Cols(ast.NodeTransformer):
+        def visit_Call(self, n):
+            self.generic_visit(n)
+            if isinstance(n.func, ast.Attribute) and n.func.attr == 'outer' and norm(n.func.value) in ('np.add', 'numpy.add') and \
+                    len(n.args) == 2 and not n.keywords and _row(n.args[1]):
+                c_ = _push(n.args[0])
+                if c_ is not None:
+                    return ast.copy_location(ast.BinOp(left=c_, op=ast.Add(), right=n.args[1]), n)
+            return n
+
+        def visit_Subscript(self, n):
+            self.generic_visit(n)
+            if norm(n.slice).replace(' ', '') in COLS and not (isinstance(n.value, ast.Call) and short(n.value) == 'linspace'):
+                c_ = _push(n.value)
+                if c_ is not None and not _scalar(n.value):
+                    return ast.copy_location(c_, n)
+            return n
+    node_ = _Cols().visit(_copy.deepcopy(f.node))
+    found_ = []
+
+    def _is_grid(e_):
+        if isinstance(e_, ast.Subscript) and isinstance(e_.value, ast.Call) and short(e_.value) == 'linspace':
+            return True
+        if isinstance(e_, ast.Call) and short(e_) == 'linspace':
+            return True
+        return isinstance(e_, ast.Call) and short(e_) == 'reshape' and isinstance(e_.func, ast.Attribute) and \
+            isinstance(e_.func.value, ast.Call) and short(e_.func.value) == 'linspace'
+
+    class _Name(ast.NodeTransformer):
+        def visit(self, n):
+            if isinstance(n, ast.expr) and _is_grid(n) and all(_scalar(a_) for x_ in ast.walk(n) if isinstance(x_, ast.Call) and
+                                                                short(x_) == 'linspace' for a_ in x_.args):
+                found_.append(n)
+                return ast.copy_location(ast.Name(id='_grid%d' % (len(found_) - 1), ctx=ast.Load()), n)
+            return super().visit(n)
+    body_ = []
+    for s_ in node_.body:
+        if isinstance(s_, ast.Assign) and _is_grid(s_.value):
+            body_.append(s_)        # already a named grid
+            continue
+        n0_ = len(found_)
+        if isinstance(s_, (ast.Assign, ast.Return, ast.AugAssign, ast.Expr)):
+            s_ = _Name().visit(s_)
+        for i_ in range(n0_, len(found_)):
+            body_.append(ast.copy_location(ast.Assign(targets=[ast.Name(id='_grid%d' % i_, ctx=ast.Store())], value=found_[i_]), s_))
+        body_.append(s_)
+    node_.body = body_
+    left_ = [x_ for s_ in node_.body if not (isinstance(s_, ast.Assign) and _is_grid(s_.value)) for x_ in ast.walk(s_)
+             if isinstance(x_, ast.Call) and short(x_) == 'linspace']
+    if not left_ and ast.dump(node_) != ast.dump(f.node):
+        ast.fix_missing_locations(node_)
+        from ..program import Func as _Func
+        g_ = _Func(f.module, node_, f.parent)
+        g_.jit, g_.children = f.jit, f.children
+        f = g_
     from ..astutil import inline, straightline_env
     from ..kai import Arr, TupleV
     W, H = Rat.sym('W'), Rat.sym('H')
